@@ -385,16 +385,185 @@ def _inline_param_closure(fn: ast.FunctionDef, g: ast.FunctionDef) -> None:
         _drop_def(fn, g)
 
 
+def _pure_value(e: ast.AST) -> bool:
+    """An expression whose value depends only on the current values of names / attribute chains / constants (no calls
+    except pure builtins, no subscripts of mutable containers are excluded on purpose: attribute chains and names only)."""
+    for n in ast.walk(e):
+        if isinstance(n, (ast.Name, ast.Attribute, ast.Constant, ast.Compare, ast.BoolOp, ast.UnaryOp, ast.IfExp, ast.Load,
+                          ast.And, ast.Or, ast.Not, ast.USub, ast.UAdd, ast.cmpop, ast.BinOp, ast.operator, ast.Tuple)):
+            continue
+        if isinstance(n, ast.Call) and isinstance(n.func, ast.Name) and n.func.id in ("len", "isinstance") and not n.keywords:
+            continue
+        return False
+    return True
+
+
+def _roots(e: ast.AST) -> set:
+    """dotted prefixes read by e: {'weights', 'self._task', 'self._task.objective_weights', ...}"""
+    out = set()
+    for n in ast.walk(e):
+        if isinstance(n, (ast.Name, ast.Attribute)):
+            parts = []
+            cur = n
+            while isinstance(cur, ast.Attribute):
+                parts.append(cur.attr)
+                cur = cur.value
+            if isinstance(cur, ast.Name):
+                parts.append(cur.id)
+                parts.reverse()
+                for i in range(1, len(parts) + 1):
+                    out.add(".".join(parts[:i]))
+    return out
+
+
+_MUTATING = {"append", "extend", "insert", "pop", "remove", "clear", "sort", "reverse", "update", "setdefault", "popitem", "add", "discard"}
+
+
+def _kills(st: ast.AST, roots: set) -> bool:
+    """Can executing st change the value of an expression reading `roots`?"""
+    for n in ast.walk(st):
+        if isinstance(n, (ast.Name, ast.Attribute)) and isinstance(getattr(n, "ctx", None), (ast.Store, ast.Del)):
+            d = []
+            cur = n
+            while isinstance(cur, ast.Attribute):
+                d.append(cur.attr)
+                cur = cur.value
+            if isinstance(cur, ast.Name):
+                d.append(cur.id)
+                txt = ".".join(reversed(d))
+                if txt in roots or any(r.startswith(txt + ".") for r in roots):
+                    return True
+        if isinstance(n, ast.Call):
+            f = n.func
+            if isinstance(f, ast.Attribute) and f.attr in _MUTATING:
+                continue          # mutating a container does not rebind the names/attribute chains that denote it
+            if isinstance(f, ast.Attribute) and isinstance(f.value, ast.Name) and f.value.id == "self":
+                # a method call on self may rebind any self.<field>
+                if any(r.startswith("self.") for r in roots):
+                    return True
+    return False
+
+
+def _copy_propagate(fn: ast.FunctionDef) -> None:
+    """N13: `x = E` (x bound once, E pure) at the top level of the function body is substituted into later statements of
+    the same block as long as no statement in between can change E's value; the assignment is dropped when x has no
+    remaining reads.  Parameters are never propagated into (they may be rebound by callers' expectations)."""
+    body = fn.body
+    stores = {}
+    for n in ast.walk(fn):
+        if isinstance(n, ast.Name) and isinstance(n.ctx, (ast.Store, ast.Del)):
+            stores[n.id] = stores.get(n.id, 0) + 1
+    params = {a.arg for a in fn.args.args + fn.args.kwonlyargs + fn.args.posonlyargs}
+    i = 0
+    while i < len(body):
+        st = body[i]
+        tgt = val = None
+        if isinstance(st, ast.Assign) and len(st.targets) == 1 and isinstance(st.targets[0], ast.Name):
+            tgt, val = st.targets[0].id, st.value
+        elif isinstance(st, ast.AnnAssign) and isinstance(st.target, ast.Name) and st.value is not None:
+            tgt, val = st.target.id, st.value
+        if tgt is None or tgt in params or stores.get(tgt, 0) != 1 or not _pure_value(val) or tgt in _names(val) \
+                or isinstance(val, ast.Constant) and val.value is None:
+            i += 1
+            continue
+        # names read by val must themselves be stable: parameters or single-assignment locals
+        if any(stores.get(nm, 0) > 1 for nm in _names(val) if nm != "self"):
+            i += 1
+            continue
+        roots = _roots(val)
+        ok = True
+        last_use = i
+        for j in range(i + 1, len(body)):
+            uses_here = any(isinstance(x, ast.Name) and x.id == tgt and isinstance(x.ctx, ast.Load) for x in ast.walk(body[j]))
+            if uses_here:
+                # inside a compound statement the value could be killed before the use: only allow simple statements,
+                # or compound statements that do not kill it at all
+                if isinstance(body[j], (ast.If, ast.For, ast.While, ast.With, ast.Try)) and _kills(body[j], roots):
+                    ok = False
+                    break
+                # a simple statement evaluates its reads before its own store
+                last_use = j
+            if _kills(body[j], roots) and any(
+                    isinstance(x, ast.Name) and x.id == tgt and isinstance(x.ctx, ast.Load) for k in range(j + 1, len(body)) for x in ast.walk(body[k])):
+                ok = False
+                break
+        # uses inside nested functions / lambdas defined later read the variable late: do not propagate then
+        for x in ast.walk(fn):
+            if isinstance(x, (ast.Lambda, ast.FunctionDef)) and x is not fn and tgt in _names(x):
+                ok = False
+        if not ok or last_use == i:
+            i += 1
+            continue
+
+        class S(ast.NodeTransformer):
+            def visit_Name(self, nn):
+                if nn.id == tgt and isinstance(nn.ctx, ast.Load):
+                    return _loc(copy.deepcopy(val), nn)
+                return nn
+        for j in range(i + 1, len(body)):
+            body[j] = S().visit(body[j])
+        del body[i]
+
+
+def _inline_private_helpers(t: ast.Module) -> None:
+    """N14: module-level `def _h(p, ..): return E` (private, E pure in its parameters and module constants) is inlined at
+    direct call sites with pure arguments; a bare reference `key=_h` with one parameter becomes `lambda p: E`."""
+    helpers = {}
+    for st in t.body:
+        if isinstance(st, ast.FunctionDef) and st.name.startswith("_") and not st.name.startswith("__") and not st.decorator_list:
+            a = st.args
+            if a.vararg or a.kwarg or a.kwonlyargs or a.posonlyargs or a.defaults:
+                continue
+            body = [s for s in st.body if not (isinstance(s, ast.Expr) and isinstance(s.value, ast.Constant))]
+            if len(body) == 1 and isinstance(body[0], ast.Return) and body[0].value is not None and _pure_value(body[0].value):
+                helpers[st.name] = ([x.arg for x in a.args], body[0].value)
+    if not helpers:
+        return
+
+    class R(ast.NodeTransformer):
+        def visit_Call(self, c):
+            self.generic_visit(c)
+            if isinstance(c.func, ast.Name) and c.func.id in helpers and not c.keywords:
+                params, expr = helpers[c.func.id]
+                if len(c.args) == len(params) and all(_pure_value(a) for a in c.args):
+                    m = dict(zip(params, c.args))
+
+                    class S(ast.NodeTransformer):
+                        def visit_Name(self, nn):
+                            if isinstance(nn.ctx, ast.Load) and nn.id in m:
+                                return copy.deepcopy(m[nn.id])
+                            return nn
+                    return _loc(S().visit(copy.deepcopy(expr)), c)
+            return c
+
+        def visit_keyword(self, k):
+            self.generic_visit(k)
+            if k.arg == "key" and isinstance(k.value, ast.Name) and k.value.id in helpers and len(helpers[k.value.id][0]) == 1:
+                params, expr = helpers[k.value.id]
+                k.value = _loc(ast.Lambda(args=ast.arguments(posonlyargs=[], args=[ast.arg(arg=params[0])], kwonlyargs=[],
+                                                           kw_defaults=[], defaults=[]), body=copy.deepcopy(expr)), k.value)
+            return k
+    for idx, st in enumerate(t.body):
+        if not (isinstance(st, ast.FunctionDef) and st.name in helpers):
+            t.body[idx] = R().visit(st)
+
+
 def normalize_module(tree: ast.Module) -> ast.Module:
     """Returns a canonicalised deep copy of the module tree."""
     t = copy.deepcopy(tree)
     t = _Expr().visit(t)
+    if isinstance(t, ast.Module):
+        _inline_private_helpers(t)
     for n in ast.walk(t):
         if isinstance(n, ast.FunctionDef):
             _inline_closures(n)
     t = _Stmt().visit(t)
     if isinstance(t, ast.Module):
         t.body = _rewrite_block(t.body)
+    for n in ast.walk(t):
+        if isinstance(n, ast.FunctionDef):
+            _copy_propagate(n)
+    t = _Stmt().visit(t)       # forms exposed by propagation (default-then-override etc.)
     t = _Expr().visit(t)       # map idioms exposed by inlining
     ast.fix_missing_locations(t)
     return t
